@@ -139,12 +139,19 @@ TimerFire(c) ==
      ELSE reg' = Head(waiting) /\ waiting' = Tail(waiting) /\ turn' = [turn EXCEPT ![Head(waiting)] = TRUE]
   /\ UNCHANGED <<ws, inbox, sent, snap, pcM, outq, opened, ackC, ackX>>
 
-Next == \E c \in Conn :
+(* The lock is ONE lock for all service ids: the cleanup of a connection of another sid may hold it for its delay. *)
+(* (holder NoC = somebody else's cleanup)                                                                          *)
+ForeignAcquire == /\ LockFree /\ lock' = <<NoC>>
+                  /\ UNCHANGED <<disk, ws, inbox, sent, snap, pcM, turn, pcC, reg, waiting, lockQ, outq, opened, ackC, ackX>>
+ForeignRelease == /\ lock = <<NoC>> /\ Release
+                  /\ UNCHANGED <<disk, ws, inbox, sent, snap, pcM, turn, pcC, reg, waiting, outq, opened, ackC, ackX>>
+
+Next == ForeignAcquire \/ ForeignRelease \/ \E c \in Conn :
           \/ Open(c) \/ PeerClose(c) \/ (\E m \in Req : PeerSend(c, m))
           \/ TurnWake(c) \/ Recv(c) \/ Deliver(c) \/ RecvEnd(c)
           \/ CleanWake(c) \/ CleanGotLock(c) \/ TimerFire(c)
 Spec == Init /\ [][Next]_vars
-FairSpec == Spec /\ \A c \in Conn : WF_vars(TurnWake(c) \/ Recv(c) \/ Deliver(c) \/ RecvEnd(c) \/ CleanWake(c) \/ CleanGotLock(c) \/ TimerFire(c))
+FairSpec == Spec /\ WF_vars(ForeignRelease) /\ \A c \in Conn : WF_vars(TurnWake(c) \/ Recv(c) \/ Deliver(c) \/ RecvEnd(c) \/ CleanWake(c) \/ CleanGotLock(c) \/ TimerFire(c))
 
 (* ---------------- Layer A clauses at model level ---------------- *)
 Before(i, c) == \E a, b \in 1..Len(opened) : a < b /\ opened[a] = i /\ opened[b] = c
